@@ -555,6 +555,31 @@ func (e *Engine) checkPooledInit(fn *ssa.Function) {
 				}
 				return false
 			}
+			// handing the object back (other than by defer, which runs at function exit) ends the
+			// ownership: no use may follow it
+			var released []*ssa.Call
+			for v := range aliases {
+				if v.Referrers() == nil {
+					continue
+				}
+				for _, r := range *v.Referrers() {
+					if c, ok := r.(*ssa.Call); ok && isPoolMethod(c.Common(), "Return") {
+						released = append(released, c)
+					}
+				}
+			}
+			afterRelease := func(u ssa.Instruction) bool {
+				for _, c := range released {
+					if c.Block() == u.Block() {
+						if instrIndex(c) < instrIndex(u) {
+							return true
+						}
+					} else if c.Block().Dominates(u.Block()) {
+						return true
+					}
+				}
+				return false
+			}
 			sort.Slice(uses, func(i, j int) bool {
 				if uses[i].Block().Index != uses[j].Block().Index {
 					return uses[i].Block().Index < uses[j].Block().Index
@@ -572,6 +597,12 @@ func (e *Engine) checkPooledInit(fn *ssa.Function) {
 				}
 				e.oblige(fx, mkState(), "owned", fmt.Sprintf("pooled-object-initialised:%s#%d", strings.TrimSpace(txt), k+1), goal,
 					"object from ObjectPool.Get used before it is re-initialised (it still holds its previous user's fields)", r.Pos())
+				goal = "true"
+				if afterRelease(r) {
+					goal = "false"
+				}
+				e.oblige(fx, mkState(), "owned", fmt.Sprintf("pooled-object-still-owned:%s#%d", strings.TrimSpace(txt), k+1), goal,
+					"object used after it was handed back to the pool with Return (another evaluation may already own it)", r.Pos())
 			}
 		}
 	}
